@@ -4,6 +4,7 @@
 //   r.new k v bound pos scale        -> x | exc:constraint
 //   i.new k v lo hi scale hyper      -> x
 //   p.new k v                        -> x
+//   t.ctor k v lo hi scale hyper     -> x orig                  (IntervalTransformedParameter constructor, read back)
 //   t.setorig k v                    -> x orig | exc:constraint
 //   t.setx k x                       -> orig d1 d2
 //   t.fd k x h                       -> g- g0 g+ a- a0 a+ b- b0 b+   (g = original value, a = d1, b = d2 at x-h, x, x+h)
@@ -425,6 +426,13 @@ static std::string doOp(State& s, const Toks& t)
   const std::string& o = t[0];
   if (o == "r.new") { size_t k = toU(t[1]); s.t[k].reset(); s.t[k].reset(new RTransformedParameter("t", dv(t[2]), dv(t[3]), t[4] == "1", dv(t[5]))); return hx(s.t[k]->getValue()); }
   if (o == "i.new") { size_t k = toU(t[1]); s.t[k].reset(); s.t[k].reset(new IntervalTransformedParameter("t", dv(t[2]), dv(t[3]), dv(t[4]), dv(t[5]), t[6] == "1")); return hx(s.t[k]->getValue()); }
+  if (o == "t.ctor")
+  {
+    // IntervalTransformedParameter constructor with read-back: x orig
+    size_t k = toU(t[1]); s.t[k].reset();
+    s.t[k].reset(new IntervalTransformedParameter("t", dv(t[2]), dv(t[3]), dv(t[4]), dv(t[5]), t[6] == "1"));
+    return hx(s.t[k]->getValue()) + " " + hx(s.t[k]->getOriginalValue());
+  }
   if (o == "p.new") { size_t k = toU(t[1]); s.t[k].reset(); s.t[k].reset(new PlaceboTransformedParameter("t", dv(t[2]))); return hx(s.t[k]->getValue()); }
   if (o == "t.clone")
   {
